@@ -157,11 +157,22 @@ def gen(rng, depth=3, plant=None, kinds=None):
         return row(mo(o), row(*items), mo(c))
     if k == "juxta":
         return row(operand(rng, plant), mo("&#x2062;"), g(depth - 1))
+    if k == "chain":
+        # a flat row of simple operands joined by one inline operator: a/b/c, a:b:c, a - b - c (no inner rows)
+        op = rng.choice(["/", ":", "&#xF7;", "&#x2215;", "&#xD7;", "-", "&#x2218;", "/"])
+        parts = [operand(rng, plant)]
+        for _ in range(rng.randint(1, 3)):
+            parts += [mo(op), operand(rng, plant)]
+        return row(*parts)
+    if k == "mixed":
+        # whole number followed by a simple fraction, and a negative simple fraction
+        fr = "<mfrac>%s%s</mfrac>" % (operand(rng, plant), operand(rng, plant))
+        return row(operand(rng, plant), fr) if rng.random() < 0.6 else row(mo("-"), fr)
     return operand(rng, plant)
 
 
 MORE_KINDS = ["sum", "prod", "frac", "pow", "sub", "sqrt", "root", "fn", "paren", "abs", "rel", "bigop", "limit", "matrix", "leaf", "leaf",
-              "neg", "subsup", "overbar", "fenced", "style", "subsup_any", "underover_any", "script_any", "list", "list", "juxta"]
+              "neg", "subsup", "overbar", "fenced", "style", "subsup_any", "underover_any", "script_any", "list", "list", "juxta", "chain", "chain", "mixed"]
 
 
 def math(body, attrs=""):
